@@ -61,6 +61,13 @@ def gen_group(rng, hist, exec_mode, max_steps):
             "cells": rng.choice([1, 1, 1, 3])}
     if t0 == 0.0 and rng.random() < 0.3:
         base["t_range_scalar"] = True
+    # complex-valued equations / states take another branch of Controller.run's copy of the initial state
+    kind = rng.choice(["real"] * 7 + ["complex-state", "complex-pde", "complex-both"])
+    if kind in ("complex-state", "complex-both"):
+        base["state_complex"] = True
+    if kind in ("complex-pde", "complex-both"):
+        base["pde_complex"] = True
+    hist("dtype", kind)
     hist("numbers", "dyadic" if numbers == "Q" else "decimal")
     hist("solver", solver)
     hist("equation", eq)
